@@ -1087,7 +1087,7 @@ func (w *world) objHash(o verifsim.Obj) []byte {
 	}
 	b, _ := json.Marshal(canon(o))
 	sum := sha256.Sum256(b)
-	if w.hashCache == nil || len(w.hashCache) > 150000 {
+	if w.hashCache == nil || len(w.hashCache) > 6000 {
 		// Dropping the whole cache also drops every reference, so no stale address can be hit later.
 		w.hashCache = map[uintptr]cachedHash{}
 	}
